@@ -1007,6 +1007,12 @@ def mk_vcall(target, args, kwargs):
 
 
 def mk_sub(base, key):
+    # (A if c else B)[k] is (A[k] if c else B[k]) when both branches are literal lists / tuples / dicts (a helper that
+    # returns a pair on each path, unpacked by its caller)
+    if base[0] == "if" and len(base) == 4 and key[0] == "c" and all(b_[0] in ("list", "dict", "if") for b_ in base[2:4]):
+        a_, b_ = mk_sub(base[2], key), mk_sub(base[3], key)
+        if not (a_[0] == "sub" and a_[1] == base[2]) and not (b_[0] == "sub" and b_[1] == base[3]):
+            return ("if", base[1], a_, b_)
     hit_ = _lookup_in_table(key, base) if base[0] in ("comp", "call") else None
     if hit_ is not None:
         return hit_[1]  # the entry exists on the paths that get here (the membership test guards the lookup)
